@@ -84,6 +84,15 @@ add("C14",
     "in the evidence assumptions; watchdog 12 s per cell (typical cell 10 ms).",
     "DESIGN.md section 4, C14")
 
+add("C05",
+    "Hypothesis PBT: generated sparse outputs x index types against a positional labelling model and a sparse->dense->sparse round-trip; differential through all detectors",
+    "Hand-built valid sparse outputs (changepoints, disjoint intervals incl. adjacent / length-1 / touching 0 and n, column "
+    "subsets) and every supported index type are passed through the public static converters: the dense frame must equal the "
+    "positional labelling, carry exactly the given index and round-trip to the sparse input; the same through fit/predict/"
+    "transform of all seven detectors on DataFrames with generated index and column labels. Bounded exploration (n<=30).",
+    "Trusted: pandas index construction; the labelling model in oracles/reference.py; affected columns are compared as sets.",
+    "DESIGN.md section 4, C05")
+
 NOT_BUILT_REASON = "check not built yet in this round (designed in DESIGN.md section 4; no claim is made)"
 
 
